@@ -106,11 +106,21 @@ def streams(tier, rng, P, only=None, cases=None):
             wrap = rng.choice(["%s", "v80 %s", "[2 %s r8]", "l8 q70 %s"])
             a = wrap % ("'" + members + "'" + ln + t1) + " n100"; b = wrap % ("'" + members + "'" + ln + t2) + " n100"
             cs.append(dict(req="compile2 %s %s" % (hx(a), hx(b)), src=a, src2=b, show="%s   vs   %s" % (a, b), key="ce%d" % i))
+        # a chord written over several lines (line breaks, blank lines, a comment between its members) is the chord written on one line
+        for i in range(300 if big else 50):
+            members = [rng.choice("cdefgab") + rng.choice(["", "", "8", "+", ",,90"]) for _ in range(rng.randrange(2, 5))]
+            tail = rng.choice(["", "2", "4", "8.", "2,50", "4,,90"])
+            gaps = [rng.choice([" ", "\n", "\n\n", " \n ", "\r\n", " /* x */\n"]) for _ in members[1:]]
+            if all(g == " " for g in gaps): gaps[0] = "\n"
+            multi = members[0] + "".join(g + m for g, m in zip(gaps, members[1:]))
+            wrap = rng.choice(["%s", "%s", "[2 %s r8]", "{%s d}4", "Sub{%s} r", "l8 q100 %s"])
+            a = wrap % ("'" + multi + "'" + tail) + " d n100"; b = wrap % ("'" + " ".join(members) + "'" + tail) + " d n100"
+            cs.append(dict(req="compile2 %s %s" % (hx(a), hx(b)), src=a, src2=b, show="%r   vs   %r" % (a, b), key="cl%d" % i))
         return cs
     def ct_judge(c, impl, m):
         st, f = impl
         if st != "ok": return ("violation", "chord program did not compile normally: " + st)
-        if f["bin1"] != f["bin2"]: return ("violation", "%s changed the chord: %s vs %s" % ("an empty argument slot" if c["key"].startswith("ce") else "a tie mark inside a chord", c["src"][:100], c["src2"][:100]))
+        if f["bin1"] != f["bin2"]: return ("violation", "%s changed the chord: %s vs %s" % ("an empty argument slot" if c["key"].startswith("ce") else ("a line break inside a chord" if c["key"].startswith("cl") else "a tie mark inside a chord"), c["src"][:100], c["src2"][:100]))
         return None
     # ---- octave-once marks (`"` one octave down, `` ` `` one octave up, for the next note only) inside Sub / tuplet / chord blocks: the block
     #      ends at its own closing brace / quote whatever stands inside, and the marked note equals `o4 note o5` / `o6 note o5`
